@@ -4,6 +4,7 @@ package engines
 
 import (
 	"bytes"
+	"crypto/rand"
 	"crypto/tls"
 	"crypto/x509"
 	"errors"
@@ -36,6 +37,7 @@ type c15Client struct {
 	dropConn int
 	dropSide int
 	dropK    int
+	twinOf   int // kind same-key-other-request: index of the client whose certificate key this one also uses
 }
 
 type c15Plan struct {
@@ -44,6 +46,7 @@ type c15Plan struct {
 	loader    bool
 	optLen    int
 	optSpare  int
+	lnState   bool // the listener's options carry an application-wide WithState
 	acceptors int
 	unixLike  bool // connections are accepted on a unix socket: every peer has the same (empty) remote address
 	base      bool // the application configured its own TLS server configuration (plain TLS clients are served by it)
@@ -85,6 +88,11 @@ func c15Run(r *kernel.Run, plan *c15Plan, concurrent bool, tag string) ([]c15Out
 	pad := []nodeenrollment.Option{nodeenrollment.WithCertificateLifetime(0), nodeenrollment.WithSkipStorage(false), nodeenrollment.WithNativeConns(false), nodeenrollment.WithTestErrorContains(""), nil}
 	for len(base) < plan.optLen {
 		base = append(base, pad[len(base)%len(pad)])
+	}
+	if plan.lnState {
+		// made anew for each of the two executions: nothing the library does with it in one can reach the other
+		st, _ := structpb.NewStruct(map[string]any{"deployment": "shared-by-all-connections"})
+		base = append(base, nodeenrollment.WithState(st))
 	}
 	options := make([]nodeenrollment.Option, 0, len(base)+plan.optSpare)
 	options = append(options, base...)
@@ -130,6 +138,17 @@ func c15Run(r *kernel.Run, plan *c15Plan, concurrent bool, tag string) ([]c15Out
 				if _, err := registration.AuthorizeNode(srv.Ctx, srv.Storage, req, aopts...); err != nil {
 					r.HarnessErr("authorize: %v", err)
 				}
+			}
+		case "same-key-other-request":
+			orig, err := types.LoadNodeCredentials(contextBG, cls[c.twinOf].w.Storage, nodeenrollment.CurrentId)
+			if err != nil {
+				r.HarnessErr("twin: load the other client's credentials: %v", err)
+			}
+			cp := proto.Clone(orig).(*types.NodeCredentials)
+			cp.RegistrationNonce = make([]byte, nodeenrollment.NonceSize)
+			rand.Read(cp.RegistrationNonce)
+			if err := cp.Store(contextBG, x.w.Storage); err != nil {
+				r.HarnessErr("twin: store credentials: %v", err)
 			}
 		case "token":
 			topts := srv.Opts()
@@ -234,6 +253,13 @@ func c15Run(r *kernel.Run, plan *c15Plan, concurrent bool, tag string) ([]c15Out
 		}
 		o.DialOK = x.res.err == nil
 		o.NotAuthorized = errors.Is(x.res.err, nodeenrollment.ErrNotAuthorized)
+		if x.c.kind == "same-key-other-request" {
+			// refused either way; HOW depends on whether the first request has been served yet, which is not this check's business
+			o.NotAuthorized = false
+			if o.DialOK {
+				r.Violate("isolation", "request-answered-with-another-connections-answer", "%s: client %d used client %d's certificate key with another request (other nonce, no token) and was served: %v", tag, x.c.idx, x.c.twinOf, x.res.conn != nil)
+			}
+		}
 		for _, a := range accepted {
 			if a.panicMsg != "" {
 				r.Violate("no-panic", "accept-panic/"+a.panicSite, "%s", a.panicMsg)
@@ -312,22 +338,27 @@ func c15Run(r *kernel.Run, plan *c15Plan, concurrent bool, tag string) ([]c15Out
 func propC15(r *kernel.Run) {
 	tp := r.Tape
 	plan := &c15Plan{backend: Pick2(tp, "inmem", "storeonce"), sw: tp.Draw(2) == 0, loader: tp.Draw(3) == 0,
-		optLen: tp.Draw(13), optSpare: tp.Draw(9), acceptors: tp.Range(2, r.Deep(4, 6)), base: tp.Draw(3) == 0}
+		optLen: tp.Draw(13), optSpare: tp.Draw(9), acceptors: tp.Range(2, r.Deep(4, 6)), base: tp.Draw(3) == 0, lnState: tp.Draw(3) == 0}
 	plan.unixLike = tp.Draw(3) == 0
 	n := tp.Range(2, r.Deep(6, 9))
 	var kinds []string
 	for i := 0; i < n; i++ {
 		c := &c15Client{idx: i, marker: fmt.Sprintf("client-marker-%d", i)}
 		c.kind = Pick2(tp, "auth", "auth", "authorized-fetch", "unauthorized-fetch", "token", "token", "token", "rejected-auth")
+		if i > 0 && (plan.clients[i-1].kind == "token" || plan.clients[i-1].kind == "authorized-fetch") && tp.Draw(4) == 0 {
+			// the same node key turns up on a second connection with ANOTHER request (other nonce, no token): alone it is
+			// refused whenever it runs - it must not be handed the answer to the first one's request
+			c.kind, c.twinOf = "same-key-other-request", i-1
+		}
 		if tp.Draw(2) == 0 {
 			c.extras = []string{fmt.Sprintf("proto-%d", tp.Draw(4))}
 		}
-		if plan.base && tp.Draw(3) == 0 {
+		if plan.base && c.kind != "same-key-other-request" && tp.Draw(3) == 0 {
 			c.kind = "base-tls"
 			c.extras = [][]string{nil, nil, {"h2"}, {"http/1.1", "h2"}}[tp.Draw(4)]
 		}
 		mk := func(tagk string) *structpb.Struct {
-			s, _ := structpb.NewStruct(map[string]any{"owner": fmt.Sprintf("%s-of-client-%d", tagk, i), "n": float64(tp.Draw(1000))})
+			s, _ := structpb.NewStruct(map[string]any{"owner": fmt.Sprintf("%s-of-client-%d", tagk, i), "n": float64(tp.Draw(1000)), fmt.Sprintf("only-of-client-%d", i): true})
 			return s
 		}
 		if tp.Draw(3) != 0 {
